@@ -79,6 +79,72 @@ def abstract(source, mapping):
     return out
 
 
+PLACE_DIRS = {"root": "", "sub": "pkg", "sub/deep": "pkg/inner", "hidden": ".hidden", "pycache": "__pycache__",
+              "hidden/sub": ".hidden/pkg", "sub/pycache": "pkg/__pycache__"}
+V1_SOURCE = "import os\nfrom district42 import schema, optional as o\n\nx = schema.int\n"
+PLAIN_SOURCE = "import os\nfrom os import path\n\nx = 1\n"
+
+
+def walk_cases(chk, mapping):
+    """spec/MC_Walk.tla: file trees; the real migrate_v1_to_v2 (through the d42 command line
+    entry point for half of them) is run on a scratch directory under /verif/.work"""
+    import io
+    import os
+    import shutil
+    import sys
+    from contextlib import redirect_stdout
+    from d42.migration.migrate_v1_to_v2 import migrate_v1_to_v2, rewrite_imports
+    from . import tlc
+    res = chk.model_check("MC_Walk", {"constants": {"MaxFiles": "2" if chk.tier == "quick" else "3"},
+                                      "invariants": ["OnlyEligibleFilesChange"]}, name="C19_MC_Walk", dump=True)
+    events = []
+    base = tlc.workdir("C19_walk_fs")
+    n = 0
+    for st in core.load_dump(res, only="done = TRUE"):
+        if not st["done"]:
+            continue
+        n += 1
+        root = os.path.join(base, "t%d" % n)
+        files = []
+        for i, f in enumerate(st["tree"]):
+            d = os.path.join(root, PLACE_DIRS[f["place"]])
+            os.makedirs(d, exist_ok=True)
+            name = "m%d.%s" % (i, "py" if f["kind"] == "py" else "txt")
+            text = V1_SOURCE if f["content"] == "v1import" else PLAIN_SOURCE
+            with open(os.path.join(d, name), "w") as fh:
+                fh.write(text)
+            files.append((f, os.path.join(d, name), text))
+        os.makedirs(root, exist_ok=True)
+        exc = ""
+        try:
+            with redirect_stdout(io.StringIO()):
+                if n % 2:
+                    migrate_v1_to_v2(root)
+                else:
+                    from d42 import _main
+                    old_argv = sys.argv
+                    sys.argv = ["d42", "v1-to-v2", root]
+                    try:
+                        _main.run()
+                    finally:
+                        sys.argv = old_argv
+        except BaseException as e:  # noqa
+            exc = type(e).__name__
+        recs = []
+        for f, path, text in files:
+            now = open(path).read()
+            want = rewrite_imports(text, mapping)
+            recs.append({"place": f["place"], "kind": f["kind"], "content": f["content"], "n": f["n"],
+                         "changed": now != text, "rewrite_ok": now == (want if want is not None else text)})
+        events.append({"id": n, "exc": exc, "files": recs})
+        shutil.rmtree(root, ignore_errors=True)
+    chk.require(n >= 100, "too few file trees (%d)" % n)
+    verdicts = chk.validate_events("Trace_Walk", events, name="C19_Trace_Walk")
+    chk.absorb(events, verdicts, lambda e: {"walk": e})
+    chk.count("file_trees", n)
+    chk.sample({"file_tree": events[len(events) // 2]})
+
+
 def describe(e):
     if e["kind"] == "target":
         return {"mapping_target": [e["mod"], e["name"]], "importable": e["importable"]}
@@ -160,6 +226,7 @@ def main(chk):
                                "shared")} for e in events]
     verdicts = chk.validate_events("Trace_C19", slim)
     chk.absorb(events, verdicts, describe)
+    walk_cases(chk, mapping)
     mods = [e for e in events if e["kind"] == "module"]
     for e in mods[:: max(1, len(mods) // 4)][:4]:
         chk.sample(describe(e))
